@@ -16,7 +16,7 @@ from simkit import model_world as M
 from simkit.core import EventLog, SutError, Violations, canon, sha
 from simkit.props import C01
 
-RUN_CAP_S = 120
+RUN_CAP_S = 900
 
 
 def gen_distreg(rng):
